@@ -93,7 +93,7 @@ def collect(schema, doc_text, loop):
 
 def _stream(n: int, o0: int, o1: int, o2: int, o3: int, t0: int, t1: int, t2: int, t3: int, asyncres: bool, asyncfields: bool, alias: int = 0) -> bool:
     """
-    pre: 0 <= alias <= 2 and (alias == 0 or thorough() or (t0 == 0 and t1 == 0 and not asyncfields))
+    pre: 0 <= alias <= 5 and (alias == 0 or thorough() or (t0 == 0 and t1 == 0 and not asyncfields))
     pre: 0 <= n <= N_EVENTS
     pre: 0 <= o0 < 9 and 0 <= o1 < 9 and 0 <= o2 < 9 and 0 <= o3 < 9
     pre: 0 <= t0 <= 2 and 0 <= t1 <= 2 and 0 <= t2 <= 1 and 0 <= t3 <= 1
@@ -111,7 +111,7 @@ def _stream(n: int, o0: int, o1: int, o2: int, o3: int, t0: int, t1: int, t2: in
     os_ = [concrete_int(raw_o[i], 0, 8) for i in range(N)]
     ts = [concrete_int(raw_t[i], 0, 2) for i in range(N)]
     AR, AF = (True if asyncres else False), (True if asyncfields else False)
-    ALIAS = concrete_int(alias, 0, 2)
+    ALIAS = concrete_int(alias, 0, 5)
     with untraced():
         outs = [(OUT[o // 3], OUT[o % 3]) for o in os_[:N]]
         events = [event_for(k, ov, ow) for k, (ov, ow) in enumerate(outs)]
@@ -120,8 +120,12 @@ def _stream(n: int, o0: int, o1: int, o2: int, o3: int, t0: int, t1: int, t2: in
         schema = make_schema(holder, AR, async_fields=AF)
         loop = DetLoop()
         try:
-            got = collect(schema, ("subscription { counter { v w k } }", "subscription { al: counter { v w k } }", "subscription { other: counter { v w k } }")[ALIAS], loop)
-            key = ("counter", "al", "other")[ALIAS]
+            # 3-5: the ONE root field occurs several times with different sub-selections (written twice, through two fragments, directly and in an inline fragment): they merge
+            got = collect(schema, ("subscription { counter { v w k } }", "subscription { al: counter { v w k } }", "subscription { other: counter { v w k } }",
+                                   "subscription { counter { v } counter { w k } }",
+                                   "subscription { ...A ...B } fragment A on Subscription { counter { v k } } fragment B on Subscription { counter { w } }",
+                                   "subscription { counter { k } ... on Subscription { counter { v w } } }")[ALIAS], loop)
+            key = ("counter", "al", "other", "counter", "counter", "counter")[ALIAS]
             got = [({"counter": d[key]} if isinstance(d, dict) and key in d else d, e) for d, e in got]
         finally:
             loop.close()
@@ -261,7 +265,7 @@ CONDITIONS = [
     Cond(
         name="stream", fn=_stream, quick=150, thorough=900, per_path=60, shards_quick=16, shards_thorough=32,
         bound="every source stream of 0..3 (thorough 4) events, each event with 3 x 3 outcomes (value / null / ResolverError) for two sub-fields, 0..1 loop ticks before each of the first two events, "
-              "sync or async subscription resolver, sync or async field resolvers, the root field plain / aliased / aliased with the NAME of another subscription field",
+              "sync or async subscription resolver, sync or async field resolvers, the root field plain / aliased / aliased with the NAME of another subscription field / occurring several times with different sub-selections (written twice, through two fragments, directly and in an inline fragment)",
         symbolic={"n": "choice: number of events", "o0..o3": "choice: per-event outcomes", "t0..t3": "choice: delays", "asyncres,asyncfields": "choice", "alias": "choice: alias of the root field"},
         assumptions=["DetLoop (time() == 0.0), real asyncio scheduling otherwise; stub source stream counts __anext__ calls",
                      "oracle: k-th result = selection executed with event k as root; errors of event k only"],
